@@ -362,7 +362,7 @@ func randStr(r *rand.Rand, maxLen int) string {
 		}
 		b := make([]byte, l)
 		for i := range b {
-			b[i] = byte(1 + r.Intn(31))
+			b[i] = byte(1 + r.Intn(7))
 			if r.Intn(9) == 0 {
 				b[i] = byte('a' + r.Intn(26))
 			}
